@@ -194,8 +194,11 @@ def check_add(chk, repo, sup):
                                         env.update({"self": c, "n": name, "node_type": t, "fanin": list(fanin) if nfi != 1 else fanin[0], "fanout": list(fanout),
                                                     "output": False, "add_connected_nodes": acn, "allow_redefinition": allow, "uid": uid})
                                         r = _run_body(fi, env, "Circuit.add")
-                                        edges_added = [l for l in c._log if l[0] == "add_edge"]
-                                        nodes_added = [l for l in c._log if l[0] == "add_node"]
+                                        # what the call leaves behind: additions minus what it took back itself (rollback of the new node)
+                                        removed_nodes = {l[1] for l in c._log if l[0] == "remove_node"}
+                                        removed_edges = {(l[1], l[2]) for l in c._log if l[0] == "remove_edge"}
+                                        edges_added = [l for l in c._log if l[0] == "add_edge" and l[1] not in removed_nodes and l[2] not in removed_nodes and (l[1], l[2]) not in removed_edges]
+                                        nodes_added = [l for l in c._log if l[0] == "add_node" and l[1] not in removed_nodes]
                                         state = {"type": t, "fanin": fanin, "fanout": fanout, "name": name, "exists": exists, "allow_redefinition": allow, "uid": uid,
                                                  "missing_fanin_node": missing_fi, "add_connected_nodes": acn}
                                         # reference: must be rejected with ValueError
@@ -223,7 +226,9 @@ def check_add(chk, repo, sup):
                                         if reasons:
                                             if r != ("raise", "ValueError"):
                                                 fails.setdefault(("C07.A.add-rejects", f"add::{reasons[0]}::" + ("no ValueError" if r[0] != "raise" else f"raises {r[1]}")), state | {"result": list(r)})
-                                            elif edges_added:
+                                            elif edges_added and not allow:
+                                                # (the property covers add with default flags or uid=True; with allow_redefinition=True the node
+                                                # existed before the call and the call cannot simply take it away again)
                                                 fails.setdefault(("C07.A.add-rejected-call-adds-no-edge", f"add::{reasons[0]}::edge left behind"), state | {"edges_left": edges_added})
                                             # pre-checkable reasons must be rejected before the node is created
                                             if r == ("raise", "ValueError") and nodes_added and reasons[0] in ("unknown-type", "name-clash", "leading-digit", "multi-fanin-on-single-input-type", "fanin-on-zero-input-type"):
@@ -462,6 +467,21 @@ class Order:
                     adds = True
         return adds, raises
 
+    @staticmethod
+    def is_rollback(tr):
+        if tr.orelse:
+            return False
+        for h in tr.handlers:
+            names = [norm(x).split(".")[-1] for x in (h.type.elts if isinstance(h.type, ast.Tuple) else [h.type])] if h.type is not None else ["BaseException"]
+            if not ({"ValueError", "Exception", "BaseException"} & set(names)):
+                continue
+            removes = any(isinstance(n, ast.Call) and isinstance(n.func, ast.Attribute) and ((dotted(n.func.value) == "self.graph" and n.func.attr in ("remove_node", "remove_nodes_from")) or (dotted(n.func.value) == "self" and n.func.attr == "remove"))
+                          for x in h.body for n in ast.walk(x))
+            reraises = bool(h.body) and isinstance(h.body[-1], ast.Raise) and h.body[-1].exc is None
+            if removes and reraises:
+                return True
+        return False
+
     def walk(self, stmts, dirty):
         for st in stmts:
             if isinstance(st, (ast.For, ast.While)):
@@ -477,6 +497,17 @@ class Order:
                 dirty = d1 or d2
                 continue
             if isinstance(st, ast.Try):
+                if self.is_rollback(st):
+                    # rollback idiom: `try: <wire> except ValueError: <remove the nodes this call created>; raise` - an edge added
+                    # inside the try does not survive a rejection raised inside it (edges die with their nodes); whether the
+                    # handler removes *all* of them is a behavioural question that C07.A / C07.X decide on states
+                    keep = self.found
+                    self.found = []
+                    dirty = self.walk(st.body, False) or dirty
+                    self.found = keep
+                    self.rollbacks = getattr(self, "rollbacks", 0) + 1
+                    dirty = self.walk(st.finalbody, dirty)
+                    continue
                 dirty = self.walk(st.body, dirty)
                 for h in st.handlers:
                     dirty = self.walk(h.body, dirty) or dirty
@@ -591,3 +622,8 @@ def run(chk):
     from ..history import history_rule
 
     history_rule(chk, "C07.H")
+
+    from ..explore import short_histories_rule
+
+
+    short_histories_rule(chk, "C07.X.short-histories", 2 if chk.tier == "quick" else 3)
